@@ -84,6 +84,7 @@ type FieldTransition struct {
 	Type, Field string
 	Clause      *Clause
 	Pkg         string
+	KeyMode     *bool
 }
 
 type Lemma struct {
